@@ -229,10 +229,21 @@ def eval_chains(st):
             for getter in (sigtools.signature, S.signature, inspect.signature):
                 st.inc('states')
                 st.inc('transitions')
-                sig = getter(getattr(inst, name))
+                bound = getattr(inst, name)
+                sig = getter(bound)
                 for kind, detail in problems(sig):
                     st.violation(kind, {'op': 'chain', 'name': name},
                                  dict(detail, program='CH_K().%s' % name, reported=str(sig), sources=alg.src_show(sig)), {'object': 'bound-method'})
+                if name != 'annotated':
+                    # a modifiers wrapper, bound: the wrapper object stands in for the function in both maps
+                    raw = [label(f) for lst in (v for k_, v in sig.sources.items() if k_ != '+depths') for f in lst
+                           if isinstance(f, types.FunctionType)]
+                    raw += [label(f) for f in sig.sources.get('+depths', {}) if isinstance(f, types.FunctionType)]
+                    if raw:
+                        st.violation('modifier-wrapper-not-swapped-consistently', {'op': 'chain', 'name': name},
+                                     {'program': 'CH_K().%s' % name, 'reported': str(sig), 'sources': alg.src_show(sig),
+                                      'problems': ['the raw function is listed where the bound wrapper object stands for it: %r' % sorted(set(raw))]},
+                                     {'object': 'bound-method'})
     finally:
         batch.close()
 
